@@ -108,7 +108,14 @@ def run_harness(scripts, watchdog=10, stateless=False, env_extra=None, jobs=None
         return list(ex.map(lambda s: run_harness_script(s, watchdog, env_extra, None, stateless), scripts))
 
 
+def strip_alias(l):
+    """`+alias` is a harness-only marker (two handle objects per script variable, see harness/djv_state.hpp): the
+    model's handles are stateless, so the model runs the same line without it."""
+    return l.replace(" +alias", "")
+
+
 def run_model_script(lines, timeout=600):
+    lines = [strip_alias(l) for l in lines]
     p = subprocess.run([MODELDRV], input="\n".join(lines) + "\n", stdout=subprocess.PIPE,
                        stderr=subprocess.PIPE, text=True, timeout=timeout)
     out = p.stdout.split("\n")
